@@ -779,3 +779,87 @@ func isAtomCall(info *types.Info, call *ast.CallExpr) bool {
 	_, ok := atomLit(info, call)
 	return ok
 }
+
+// ruleCompositeElementParsers: in the production of a composite IDL type (an
+// And whose atoms open with "Map<", "Vec<", "Tuple<"), every position that is
+// not an atom holds the context's recursive type parser: the printer prints
+// whatever type sits there (Map<Cell,str> for a map keyed by a struct), so a
+// position narrowed to a sub-grammar (basicType()) refuses IDL the generator
+// itself produced.
+func ruleCompositeElementParsers(c *core.Ctx, p *packages.Package, rule string) {
+	info := p.TypesInfo
+	n := 0
+	var check func(owner string, args []ast.Expr, first bool)
+	check = func(owner string, args []ast.Expr, first bool) {
+		for i, a := range args {
+			if first && i == 0 {
+				continue // the node builder
+			}
+			switch x := ast.Unparen(a).(type) {
+			case *ast.CallExpr:
+				if isAtomCall(info, x) {
+					continue
+				}
+				nested := false
+				for _, nm := range []string{"And", "Many", "Kleene", "Maybe", "OrdChoice", "ManyUntil"} {
+					if isParsecCall(info, x, nm) {
+						nested = true
+					}
+				}
+				if nested {
+					check(owner, x.Args, true)
+					continue
+				}
+				n++
+				c.Fail(rule, "element-parser@"+owner, x.Pos(), "a position of the composite type production "+owner+" is parsed by "+types.ExprString(x.Fun)+"(…) instead of the recursive type parser: the printer prints any type there (a map keyed by a struct, a vector of maps), so IDL the generator produced is refused by the parser")
+			case *ast.SelectorExpr:
+				if sel, ok := info.Selections[x]; ok && sel.Kind() == types.FieldVal {
+					n++
+					c.Pass(rule, "element-parser@"+owner+"#"+fmt.Sprint(i), x.Pos(), "the recursive type parser ("+types.ExprString(x)+")")
+					continue
+				}
+				n++
+				c.Undecided(rule, "element-parser@"+owner, x.Pos(), "cannot tell what parser "+types.ExprString(x)+" is")
+			case *ast.Ident:
+				if _, isFunc := info.Uses[x].(*types.Func); isFunc {
+					continue // a node builder of a nested combinator
+				}
+				n++
+				c.Undecided(rule, "element-parser@"+owner, x.Pos(), "cannot tell what parser "+x.Name+" is")
+			}
+		}
+	}
+	for _, f := range p.Syntax {
+		if strings.HasSuffix(c.Fset.Position(f.Pos()).Filename, "_test.go") {
+			continue
+		}
+		for _, d := range f.Decls {
+			fd, ok := d.(*ast.FuncDecl)
+			if !ok || fd.Body == nil {
+				continue
+			}
+			ast.Inspect(fd.Body, func(nd ast.Node) bool {
+				call, ok := nd.(*ast.CallExpr)
+				if !ok || !isParsecCall(info, call, "And") {
+					return true
+				}
+				opener := ""
+				for _, a := range call.Args {
+					if ac, ok := ast.Unparen(a).(*ast.CallExpr); ok && isAtomCall(info, ac) {
+						if lit, ok := atomLit(info, ac); ok && len(lit) > 1 && strings.HasSuffix(lit, "<") {
+							opener = lit
+						}
+					}
+				}
+				if opener == "" {
+					return true
+				}
+				check(fd.Name.Name+"("+opener+")", call.Args, true)
+				return false
+			})
+		}
+	}
+	if n == 0 {
+		c.Undecided(rule, "element-parser", token.NoPos, "no composite type production (an And opened by an atom ending in '<') found in the IDL grammar")
+	}
+}
